@@ -280,7 +280,7 @@ class Executor:
             return None
         for st in tree.body:
             if isinstance(st, (ast.FunctionDef, ast.AsyncFunctionDef)) and st.name == name:
-                return Py(("func", f"{self.modname}:{name}", "inline"))
+                return Py(("func", f"{self.modname}:{name}", "inline-auto"))
         return None
 
     def ev_Name(self, node, path):
@@ -962,7 +962,7 @@ class Executor:
                 real = real_method(m.name, name)
                 if real is not None and real[1] in ("method", "static"):
                     # a helper of the real class that nobody wrote a contract for: its real body is executed in place
-                    return self.call_inline(path, real[0], recv if real[1] == "method" else None, ca, node)
+                    return self.call_inline_auto(path, real[0], recv if real[1] == "method" else None, ca, node)
                 self.unsupported(node, f"method {name} of {recv.cls}")
             return self.invoke_spec(path, me[1], recv, ca, f"{m.name}.{name}", node)
         if isinstance(recv, S):
@@ -983,6 +983,8 @@ class Executor:
             return spec.target(self, path, recv, ca, node)
         if spec.kind == "inline":
             return self.call_inline(path, spec.target, recv, ca, node)
+        if spec.kind == "inline-auto":
+            return self.call_inline_auto(path, spec.target, recv, ca, node)
         if spec.kind == "contract":
             c = CONTRACTS.get(spec.target)
             if c is None:
@@ -1228,6 +1230,30 @@ class Executor:
         sub.inline_depth = self.inline_depth + 1
         if sub.inline_depth > 8:
             raise Unsupported(f"inline depth exceeded at {qualname}")
+        self.run.inlined = getattr(self.run, "inlined", set()) | {qualname}
+        return sub.run_body(path, recv, ca, node)
+
+    def call_inline_auto(self, path, qualname: str, recv, ca: CallArgs, node=None) -> list:
+        """Inline a real helper that has no contract.  A loop inside it needs an invariant: when the function under
+        contract lost loops to the helper (the contract declares specs for more loops than the function's own text still
+        has), the spare specs are handed down in order — an extracted helper keeps being checked against the invariant
+        written for the loop it took along.  Otherwise a helper with a loop is outside the accepted subset (undecided)."""
+        fnode, modname = load_function(qualname)
+        sub = Executor(self.run, None, qualname, fnode, modname)
+        sub.s0, sub.a = self.s0, self.a
+        sub.inline_depth = self.inline_depth + 1
+        if sub.inline_depth > 8:
+            raise Unsupported(f"inline depth exceeded at {qualname}")
+        if sub.loop_ids:
+            own = len(set(self.loop_ids.values()))
+            declared = sorted(self.contract.loops) if (self.contract is not None and self.inline_depth == 0) else []
+            spare = [k for k in declared if k >= own]
+            order = sorted(set(sub.loop_ids.values()))
+            if len(spare) < len(order):
+                raise Unsupported(f"loop in helper {qualname} that has no contract (no invariant to check it against)")
+            remap = {old: spare[j] for j, old in enumerate(order)}
+            sub.loop_ids = {nid: remap[k] for nid, k in sub.loop_ids.items()}
+            sub.contract = self.contract
         self.run.inlined = getattr(self.run, "inlined", set()) | {qualname}
         return sub.run_body(path, recv, ca, node)
 
